@@ -2,7 +2,11 @@ import ZV.Model.C11
 import ZV.Drv.C10
 /-! line protocol for C11:  `c11 <specs> <verify-matrix> <start index> <ops>` (see Drv/C10 for the tokens)
     output: `<number of chains> <chains>`: chains sorted lexicographically, `;` between chains,
-    `>` between certificate indices; `0 -` when there is none. -/
+    `>` between certificate indices; `0 -` when there is none.
+    `c11 seq <specs> <verify-matrix> <history>`: a history on ONE graph; tokens `a<i>` AddCert, `r<i>` AddRoot,
+    `s<i>` WalkChains, `c<i>:<n>` WalkChainsAsync with channel size n (the model does not see n).
+    output: per token (`|`) the canonical dump of the graph after it (Drv/C10 `showGraph`), preceded for a
+    walk by `W=<chains> `. -/
 namespace ZV.C11
 open ZV.C10
 
@@ -16,8 +20,39 @@ def showChains (cs : List (List Cert)) : String :=
   if l.isEmpty then "0 -"
   else toString l.length ++ " " ++ ";".intercalate (l.map (fun c => ">".intercalate (c.map toString)))
 
+def parseEv (cs : List Cert) (s : String) : Option Ev :=
+  match s.toList with
+  | 'a' :: rest => ((String.ofList rest).toNat?.bind (nth? cs)).map (fun c => Ev.ins (Op.add c))
+  | 'r' :: rest => ((String.ofList rest).toNat?.bind (nth? cs)).map (fun c => Ev.ins (Op.root c))
+  | 's' :: rest => ((String.ofList rest).toNat?.bind (nth? cs)).map Ev.walk
+  | 'c' :: rest =>
+    match (String.ofList rest).splitOn ":" with
+    | [i, n] =>
+      match n.toNat? with
+      | some _ => (i.toNat?.bind (nth? cs)).map Ev.walk
+      | none => none
+    | _ => none
+  | _ => none
+
+def showObs (x : Graph × Option (List (List Cert))) : String :=
+  match x.2 with
+  | none => showGraph x.1
+  | some chains => "W=" ++ showChains chains ++ " " ++ showGraph x.1
+
+def handleSeq (specs vm hist : String) : String :=
+  match parseCerts specs, parseMatrix vm with
+  | some cs, some m =>
+    match (if hist == "-" then some [] else (hist.splitOn ",").mapM (parseEv cs)) with
+    | some evs =>
+      match history (verOf m) Graph.empty evs with
+      | .ok obs => if obs.isEmpty then "-" else "|".intercalate (obs.map showObs)
+      | _ => "panic"
+    | none => "bad-op"
+  | _, _ => "bad-op"
+
 def handle (args : List String) : String :=
   match args with
+  | ["seq", specs, vm, hist] => handleSeq specs vm hist
   | [specs, vm, start, ops] =>
     match parseCerts specs, parseMatrix vm with
     | some cs, some m =>
